@@ -88,37 +88,58 @@ Qed.
 
 (** ** the operations *)
 
+Definition scnt (s : slru) (x : key) : nat := (cntl (items (prob s)) x + cntl (items (prot s)) x)%nat.
+
 Lemma sput_ok s k v :
-  slru_inv s -> exists s' r, sput s k v = Ok (s', r) /\ slru_inv s' /\ same_caps s s'.
+  slru_inv s -> exists s' r, sput s k v = Ok (s', r) /\ slru_inv s' /\ same_caps s s' /\
+                             (forall x, (scnt s' x <= scnt s x + ind (Z.eqb k x))%nat) /\
+                             (0 < scnt s' k)%nat.
 Proof.
-  intros Hinv. pose proof Hinv as (Hc1 & Hc2 & Hl1 & Hl2 & Hd). unfold sput.
+  intros Hinv. pose proof Hinv as (Hc1 & Hc2 & Hl1 & Hl2 & Hd). unfold sput, scnt.
   destruct (update_spec (prot s) k v) as [[Hn ->]|(old & Hf & ->)].
   - destruct (find k (items (prob s))) as [old|] eqn:Ef.
-    + destruct (move_to_protected_ok s k old (Some v) Hinv Ef) as (s' & -> & Hi & Hcaps & _).
-      cbn [bind]. eauto.
+    + destruct (move_to_protected_ok s k old (Some v) Hinv Ef) as (s' & -> & Hi & Hcaps & Heq & (v1 & rest & Hhd & _)).
+      cbn [bind]. do 2 eexists; split; [reflexivity|]. split; [exact Hi|]. split; [exact Hcaps|]. split.
+      * intros x. rewrite Heq. lia.
+      * rewrite Hhd. rewrite cntl_cons, Z.eqb_refl. cbn. lia.
     + pose proof (put_inv_seg (prob s) k v Hc1 Hl1) as P.
       destruct (Lru.put (prob s) k v) as [[l' r] cb]. destruct P as (Pc & Pl & Pcases).
-      do 2 eexists; split; [reflexivity|]. apply cntl_find_none in Hn.
-      split; [|split; cbn; auto].
-      repeat split; cbn [prob prot]; try lia.
-      intros x. pose proof (Hd x).
-      destruct Pcases as [(o & _ & _ & E)|[(_ & Hz & E)|(ek & ev & _ & Hz & _ & E)]];
-        specialize (E x); eqb_cases; try lia.
+      do 2 eexists; split; [reflexivity|]. apply cntl_find_none in Hn. apply cntl_find_none in Ef.
+      assert (Hx : forall x, (cntl (items l') x <= cntl (items (prob s)) x + ind (Z.eqb k x))%nat /\
+                             (0 < cntl (items l') k)%nat).
+      { intros x.
+        destruct Pcases as [(o & _ & Hp & E)|[(_ & Hz & E)|(ek & ev & _ & Hz & Hp & E)]].
+        - rewrite !E. split; [lia|exact Hp].
+        - rewrite !E. rewrite Z.eqb_refl. cbn [ind]. split; lia.
+        - pose proof (E x) as Ex. pose proof (E k) as Ek. rewrite Z.eqb_refl in Ek. cbn [ind] in Ek.
+          assert (ek <> k) by (intros ->; lia).
+          rewrite (ind_eqb_neq ek k) in Ek by assumption. split; lia. }
+      split; [|split; [split; cbn; auto|]].
+      * repeat split; cbn [prob prot]; try lia.
+        intros x. pose proof (Hd x). destruct (Hx x) as [Hxa _]. eqb_cases; lia.
+      * cbn [prob prot]. split.
+        -- intros x. destruct (Hx x) as [Hxa _]. lia.
+        -- destruct (Hx k) as [_ Hxb]. lia.
   - pose proof (cntl_find_some _ _ _ Hf) as Hpos. pose proof (length_remove_key_in _ _ Hpos).
-    do 2 eexists; split; [reflexivity|]. split; [|split; reflexivity]. fin Hd.
+    do 2 eexists; split; [reflexivity|]. split; [fin Hd|]. split; [split; reflexivity|].
+    cbn [prob prot]. split.
+    + intros x. norm. eqb_cases; lia.
+    + norm. lia.
 Qed.
 
 Lemma sget_mut_ok s k w :
-  slru_inv s -> exists s' r, sget_mut s k w = Ok (s', r) /\ slru_inv s' /\ same_caps s s'.
+  slru_inv s -> exists s' r, sget_mut s k w = Ok (s', r) /\ slru_inv s' /\ same_caps s s' /\
+                             (forall x, scnt s' x = scnt s x).
 Proof.
-  intros Hinv. pose proof Hinv as (Hc1 & Hc2 & Hl1 & Hl2 & Hd). unfold sget_mut.
+  intros Hinv. pose proof Hinv as (Hc1 & Hc2 & Hl1 & Hl2 & Hd). unfold sget_mut, scnt.
   destruct (get_mut_spec (prot s) k w) as [[Hn ->]|(v & Hf & ->)].
   - destruct (find k (items (prob s))) as [v|] eqn:Ef.
-    + destruct (move_to_protected_ok s k v w Hinv Ef) as (s' & -> & Hi & Hcaps & _).
-      cbn [bind]. eauto.
-    + do 2 eexists; split; [reflexivity|]. split; [exact Hinv|split; reflexivity].
+    + destruct (move_to_protected_ok s k v w Hinv Ef) as (s' & -> & Hi & Hcaps & Heq & _).
+      cbn [bind]. eauto 8.
+    + do 2 eexists; split; [reflexivity|]. split; [exact Hinv|]. split; [split; reflexivity|reflexivity].
   - pose proof (cntl_find_some _ _ _ Hf) as Hpos. pose proof (length_remove_key_in _ _ Hpos).
-    do 2 eexists; split; [reflexivity|]. split; [|split; reflexivity]. fin Hd.
+    do 2 eexists; split; [reflexivity|]. split; [fin Hd|]. split; [split; reflexivity|].
+    cbn [prob prot]. intros x. norm. eqb_cases; lia.
 Qed.
 
 Lemma lru_remove_inv_seg l k :
@@ -134,37 +155,48 @@ Proof.
 Qed.
 
 Lemma speek_mut_ok s k w :
-  slru_inv s -> slru_inv (fst (speek_mut s k w)) /\ same_caps s (fst (speek_mut s k w)).
+  slru_inv s -> slru_inv (fst (speek_mut s k w)) /\ same_caps s (fst (speek_mut s k w)) /\
+                (forall x, scnt (fst (speek_mut s k w)) x = scnt s x).
 Proof.
-  intros (Hc1 & Hc2 & Hl1 & Hl2 & Hd). unfold speek_mut.
+  intros (Hc1 & Hc2 & Hl1 & Hl2 & Hd). unfold speek_mut, scnt.
   destruct (peek_mut_spec (prot s) k w) as [[Hn ->]|(v & Hf & ->)].
-  - destruct (peek_mut_spec (prob s) k w) as [[Hn2 ->]|(v & Hf & ->)]; cbn [fst]; (split; [|split; reflexivity]).
+  - destruct (peek_mut_spec (prob s) k w) as [[Hn2 ->]|(v & Hf & ->)]; cbn [fst];
+      (split; [|split; [split; reflexivity|]]).
     + repeat split; assumption.
+    + reflexivity.
     + fin Hd.
-  - cbn [fst]. split; [|split; reflexivity]. fin Hd.
+    + cbn [prob prot]. intros x. now norm.
+  - cbn [fst]. split; [|split; [split; reflexivity|]]. fin Hd.
+    cbn [prob prot]. intros x. now norm.
 Qed.
 
 Lemma sremove_ok s k :
-  slru_inv s -> slru_inv (fst (sremove s k)) /\ same_caps s (fst (sremove s k)).
+  slru_inv s -> slru_inv (fst (sremove s k)) /\ same_caps s (fst (sremove s k)) /\
+                (forall x, (scnt (fst (sremove s k)) x <= scnt s x)%nat).
 Proof.
-  intros (Hc1 & Hc2 & Hl1 & Hl2 & Hd). unfold sremove.
+  intros (Hc1 & Hc2 & Hl1 & Hl2 & Hd). unfold sremove, scnt.
   pose proof (lru_remove_inv_seg (prob s) k) as P.
   destruct (Lru.remove (prob s) k) as [[l' r] cb]. destruct P as (Pc & Pl & Pe & _).
   destruct r as [v|]; cbn [fst].
-  - split; [|split; cbn; auto]. repeat split; cbn [prob prot]; try lia.
-    intros x. pose proof (Hd x). rewrite Pe. lia.
+  - split; [|split; [split; cbn; auto|]].
+    + repeat split; cbn [prob prot]; try lia.
+      intros x. pose proof (Hd x). rewrite Pe. lia.
+    + cbn [prob prot]. intros x. rewrite Pe. lia.
   - pose proof (lru_remove_inv_seg (prot s) k) as Q.
     destruct (Lru.remove (prot s) k) as [[l2 r2] cb2]. destruct Q as (Qc & Ql & Qe & _).
-    cbn [fst]. split; [|split; cbn; auto]. repeat split; cbn [prob prot]; try lia.
-    intros x. pose proof (Hd x). rewrite Qe. lia.
+    cbn [fst]. split; [|split; [split; cbn; auto|]].
+    + repeat split; cbn [prob prot]; try lia.
+      intros x. pose proof (Hd x). rewrite Qe. lia.
+    + cbn [prob prot]. intros x. rewrite Qe. lia.
 Qed.
 
 Lemma sput_protected_ok s k v :
   slru_inv s -> slru_inv (fst (sput_protected s k v)) /\ same_caps s (fst (sput_protected s k v)) /\
                 (0 < cntl (items (prot (fst (sput_protected s k v)))) k)%nat /\
-                cntl (items (prob (fst (sput_protected s k v)))) k = 0%nat.
+                cntl (items (prob (fst (sput_protected s k v)))) k = 0%nat /\
+                (forall x, (scnt (fst (sput_protected s k v)) x <= scnt s x + ind (Z.eqb k x))%nat).
 Proof.
-  intros (Hc1 & Hc2 & Hl1 & Hl2 & Hd). unfold sput_protected.
+  intros (Hc1 & Hc2 & Hl1 & Hl2 & Hd). unfold sput_protected, scnt.
   pose proof (lru_remove_inv_seg (prob s) k) as P.
   destruct (Lru.remove (prob s) k) as [[l' r] cb]. destruct P as (Pc & Pl & Pe & Pn & Ps).
   pose proof (put_inv_seg (prot s) k v Hc2 Hl2) as Q.
@@ -181,15 +213,21 @@ Proof.
       intros x. pose proof (Hd x). rewrite Pe.
       destruct Qcases as [(o & _ & _ & E)|[(_ & Hz & E)|(ek & ev & _ & Hz & _ & E)]];
         specialize (E x); pose proof (Ps ltac:(congruence)); eqb_cases; try lia.
-    + split; [exact Hk|]. rewrite Pe. rewrite Z.eqb_refl. cbn [ind].
-      pose proof (Hd k). lia.
+    + split; [exact Hk|]. split.
+      * rewrite Pe. rewrite Z.eqb_refl. cbn [ind]. pose proof (Hd k). lia.
+      * intros x. rewrite Pe.
+        destruct Qcases as [(o & _ & _ & E)|[(_ & Hz & E)|(ek & ev & _ & Hz & _ & E)]];
+          specialize (E x); eqb_cases; lia.
   - destruct (Pn eq_refl) as [-> Hz0].
     split; [|split; [split; cbn; auto|]].
     + repeat split; cbn [prob prot]; try lia.
       intros x. pose proof (Hd x).
       destruct Qcases as [(o & _ & _ & E)|[(_ & Hz & E)|(ek & ev & _ & Hz & _ & E)]];
         specialize (E x); eqb_cases; try lia.
-    + split; [exact Hk|exact Hz0].
+    + split; [exact Hk|]. split; [exact Hz0|].
+      intros x.
+      destruct Qcases as [(o & _ & _ & E)|[(_ & Hz & E)|(ek & ev & _ & Hz & _ & E)]];
+        specialize (E x); eqb_cases; lia.
 Qed.
 
 Lemma seg_same_keys_inv s p l :
@@ -215,11 +253,11 @@ Proof.
   assert (Hsame : same_caps s s) by (split; reflexivity).
   destruct o as [o|k v|p mru w|p|p|p|]; cbn [sstep].
   - destruct o; cbn [sstep_trait]; try (do 2 eexists; split; [reflexivity|split; assumption]).
-    + destruct (sput_ok s k v Hinv) as (s' & r & -> & Hi & Hcp). cbn [bind]. eauto.
-    + unfold sget. destruct (sget_mut_ok s k None Hinv) as (s' & r & -> & Hi & Hcp). cbn [bind]. eauto.
-    + destruct (sget_mut_ok s k w Hinv) as (s' & r & -> & Hi & Hcp). cbn [bind]. eauto.
-    + pose proof (speek_mut_ok s k w Hinv) as [P Q]. destruct (speek_mut s k w) as [s' r]. eauto.
-    + pose proof (sremove_ok s k Hinv) as [P Q]. destruct (sremove s k) as [s' r]. eauto.
+    + destruct (sput_ok s k v Hinv) as (s' & r & -> & Hi & Hcp & _). cbn [bind]. eauto.
+    + unfold sget. destruct (sget_mut_ok s k None Hinv) as (s' & r & -> & Hi & Hcp & _). cbn [bind]. eauto.
+    + destruct (sget_mut_ok s k w Hinv) as (s' & r & -> & Hi & Hcp & _). cbn [bind]. eauto.
+    + pose proof (speek_mut_ok s k w Hinv) as (P & Q & _). destruct (speek_mut s k w) as [s' r]. eauto.
+    + pose proof (sremove_ok s k Hinv) as (P & Q & _). destruct (sremove s k) as [s' r]. eauto.
     + do 2 eexists; split; [reflexivity|]. split; [|split; reflexivity].
       unfold spurge, purge. cbn [fst]. fin Hd.
   - pose proof (sput_protected_ok s k v Hinv) as (P & Q & _).
